@@ -134,6 +134,9 @@ func (x *Exec) callStatic(st *State, fr *Frame, fn *ssa.Function, args []Value, 
 		}
 	}
 	inline := (c != nil && c.Inline) || fn.Parent() != nil || (fn.Synthetic != "" && len(fn.Blocks) > 0)
+	if !inline && c == nil && x.autoInline(fr, fn) {
+		inline = true
+	}
 	if inline && len(fn.Blocks) > 0 {
 		if fn == x.unitFn && c == nil {
 			unsupported("recursive call of %s without contract", key)
@@ -386,6 +389,9 @@ func (x *Exec) applyContract(st *State, fr *Frame, c *FuncContract, key string, 
 		}
 	}
 	short := shortName(key)
+	for _, l := range c.Lets {
+		env.names[l.Name] = env.eval(l.E) // entry-state snapshots of the callee's contract
+	}
 	for _, r := range c.Requires {
 		t := env.evalBool(r.E)
 		x.oblige(st, "pre", short+":"+r.Label, t, pos)
